@@ -82,11 +82,22 @@ def main():
                 state["failing_calls"] += 1
                 raise Violation(v["kind"])
 
-        test = settings(max_examples=n_ex, database=None, deadline=None, derandomize=False, report_multiple_bugs=False,
-                        suppress_health_check=list(HealthCheck), phases=[Phase.generate, Phase.shrink], verbosity=Verbosity.quiet)(
-            seed(wseed + part_i)(given(strat)(body)))
+        # the time budget decides: Hypothesis runs in chunks (each a seeded run of its own) until the part's share of the budget is
+        # used up or its example count is reached - no examples are generated only to be skipped
+        chunk = 60 if tier == "quick" else 200
+        def run_chunks():
+            done = 0
+            k = 0
+            while done < n_ex and time.time() <= budget_end:
+                n = min(chunk, n_ex - done)
+                test = settings(max_examples=n, database=None, deadline=None, derandomize=False, report_multiple_bugs=False,
+                                suppress_health_check=list(HealthCheck), phases=[Phase.generate, Phase.shrink], verbosity=Verbosity.quiet)(
+                    seed(wseed + part_i * 100003 + k * 7919)(given(strat)(body)))
+                test()
+                done += n
+                k += 1
         try:
-            test()
+            run_chunks()
         except Violation:
             lf = state["last_fail"]
             # minimise the decision list of the (shrunk) failing program
